@@ -6,7 +6,7 @@
     pkg/provider/xml/*/models.go).  NOT modelled: compress/flate (Section variables, hypothesis
     inflate (deflate b) = Some b), encoding/xml's decoder beyond the printer's language. *)
 From Saml Require Import Base.Bytes Codec.Utf8 Codec.XmlEscape Codec.Sanitize Codec.Base64 Xml.Tree Xml.Lex Xml.Balanced Xml.SanTree
-  Idp.FactTypes Gen.Facts Core.WireCodec Xml.SchemaTypes Xml.Schema Gen.Schema.
+  Idp.FactTypes Gen.Facts Core.WireCodec Xml.SchemaTypes Xml.Schema Gen.Schema Idp.BuilderTypes Idp.Builder Xml.Unmarshal.
 
 (** values made of legal XML characters come back exactly, through the XML reference decoder and through Go's *)
 Theorem C18_escape_roundtrip : forall s, legal_xml s = true -> xml_unescape (xml_escape s) = Some s /\ go_text_unescape (xml_escape s) = Some s.
@@ -47,6 +47,16 @@ Proof. intros fuel ty v t Hv H. exact (struct_data_cannot_restructure fuel xml_s
 (** the only field any model type writes as raw XML is one the IdP never populates (and the model refuses a value
     that does) *)
 Theorem C18_raw_xml_fields : raw_xml_fields xml_schema = [("saml.BaseIDAbstractType", "InnerXml")]%string.
+Proof. vm_compute. reflexivity. Qed.
+
+(** ... and back: the library's decoders are encoding/xml's Unmarshal into the same types; Xml/Unmarshal.v models it over the
+    same generated schema (names resolved by Go's tokenizer, an oracle) and the harness compares it with the real decoders
+    on every reply of the flows, on the marshalled values of random shape and on request documents with prefixes, unknown
+    and repeated elements, wrong roots and trailing content (Corr.C18Corr.KUnm).  Example: what was marshalled comes back *)
+Example C18_unmarshal_example :
+  let a := b "urn:oasis:names:tc:SAML:2.0:assertion" in
+  unmarshal_root xml_schema "saml.NameIDType" (RElem a (b "NameID") [([], b "xmlns", a); ([], b "Format", b "f<")] [RText (b "]]>&")])
+  = Some (VStruct [VName a (b "NameID"); VStr (b "f<"); VStr []; VStr []; VStr []; VStr (b "]]>&")]).
 Proof. vm_compute. reflexivity. Qed.
 
 (** the transport codec *)
